@@ -16,7 +16,7 @@ RULE = ("cases from rng(seed, 4, 0, i): connected-per-cluster graphs of R^2 and/
         "cond up to 1e6, measurement noise 10^U(-3,1); optimize() with default arguments or random tol in 10^U(-10,-2), max_iter in 1..20; every 3rd case then edits the problem in place (information replaced / scaled in place, measurement, a vertex, a fixed flag) and re-optimizes the same graph object. "
         "distinct = spec fingerprint; non-trivial = some free vertex is displaced by more than 1e-3 from the optimum initially and cond(H)<=1e10.")
 REQ = ["eval:optimum-reached", "eval:final-chi2-at-optimum", "class:landmark_edges", "class:parallel_edges", "class:far_initial_guess", "class:mixed_dimensions",
-       "class:illconditioned_information", "class:shared_pose_storage", "class:reoptimised_after_edits", "eval:optimum-reached-after-edits"]
+       "class:illconditioned_information", "class:shared_pose_storage", "class:reoptimised_after_edits", "eval:optimum-reached-after-edits", "class:information_scales:per_edge", "class:information_scales:all_tiny"]
 PLAN = {
     "quick": {"cases": 1600, "soft_s": 60, "min_nontrivial": 400, "require": REQ},
     "thorough": {"cases": 80000, "soft_s": 1100, "min_nontrivial": 10000, "require": REQ},
@@ -30,7 +30,7 @@ def run_case(ctx, i, rng):
     noise = float(10 ** rng.uniform(-3, 1))
     far = float(10 ** rng.uniform(-2, 6))
     cond = float(10 ** rng.uniform(0, 6))
-    spec, labels = gen.cluster_graph(rng, kinds=kinds, size=(2, max(2, nmax)), noise_t=noise, init_t=far, cond=cond, custom=False, scale=float(10 ** rng.uniform(0, 3)), alias=bool(rng.random() < 0.25))
+    spec, labels = gen.cluster_graph(rng, kinds=kinds, size=(2, max(2, nmax)), noise_t=noise, init_t=far, cond=cond, custom=False, scale=float(10 ** rng.uniform(0, 3)), alias=bool(rng.random() < 0.25), wide_info=bool(rng.random() < 0.3))
     if far > 1e3:
         labels.add("far_initial_guess")
     if cond > 1e3:
@@ -46,8 +46,8 @@ def run_case(ctx, i, rng):
     H, b, chi0, idx, n = M.assemble(g, "ref")
     free = M.free_mask(g, n, idx)
     dx, c = M.reduced_step(H, b, free)
-    if dx is None or c > 1e10:
-        raise Skip("cond(H_reduced) > 1e10")
+    if dx is None or c > (1e13 if any(l.startswith("information_scales") for l in labels) else 1e10):
+        raise Skip("cond(H_reduced) too large for a meaningful comparison")
     xstar = []
     for v, p in zip(g._vertices, x0):
         i0 = idx[id(v)]
